@@ -89,6 +89,16 @@ SetMaxR(n, path, v) ==
            viaIdx(m, i) == IF InRange(i, m) THEN LET j == Norm(i, Len(m.a)) IN [m EXCEPT !.a = [@ EXCEPT ![j + 1] = SetMaxR(@, rest, v)]] ELSE m
        IN CASE f.f = "child" -> IF IsObj(n) THEN viaKey(n, f.key) ELSE n
             [] f.f = "nth" -> viaIdx(n, f.i)
+            \* descent: the rest applies to the node itself and, with the descent still in place, to every container member the
+            \* first application left untouched (an upper bound of what Set may create: a trailing child creates its key in every object)
+            [] f.f = "desc" -> LET self == SetMaxR(n, rest, v) IN
+                               IF IsArr(n) /\ IsArr(self) /\ Len(self.a) = Len(n.a)
+                               THEN [self EXCEPT !.a = [j \in 1..Len(n.a) |-> IF IsCont(n.a[j]) /\ self.a[j] = n.a[j] THEN SetMaxR(n.a[j], path, v) ELSE self.a[j]]]
+                               ELSE IF IsObj(n) /\ IsObj(self)
+                               THEN [self EXCEPT !.o = [j \in 1..Len(self.k) |->
+                                        IF HasKey(n, self.k[j]) /\ IsCont(Member(n, self.k[j])) /\ self.o[j] = Member(n, self.k[j])
+                                        THEN SetMaxR(self.o[j], path, v) ELSE self.o[j]]]
+                               ELSE self
             [] f.f = "union" -> LET RECURSIVE U(_, _)
                                     U(m, j) == IF j > Len(f.items) THEN m
                                                ELSE LET u == f.items[j] IN
@@ -163,9 +173,12 @@ AllowedOk(doc, m, after) ==
        IF ~IsOne(m) \/ S = <<>> THEN OkAll(doc, m, S, after)
        ELSE IF m.op = "ModifyOne" /\ m.md.m = "same" THEN DocEq(after, doc)
        ELSE \E q \in 1..Len(S) : OkAll(doc, m, <<S[q]>>, after)
-\* outside the store's definition: a recursive descent (nested selected locations), and removals through a path that
+\* outside the store's definition: a recursive descent with nested selected locations, and removals through a path that
 \* reaches a location twice (removing "the same location" twice is not defined by the statement): anything but a panic
-Undefined(doc, m) == HasDesc(m.path) \/ (m.op \in {"Remove", "RemoveOne", "Del", "DelOne"} /\ LocDup(doc, m.path))
+\* (a descent is defined as long as no selected location lies inside another one: then the order of application cannot matter)
+NestedSel(S) == \E p, q \in 1..Len(S) : p # q /\ IsPrefix(S[p], S[q])
+Undefined(doc, m) == (HasDesc(m.path) /\ (NestedSel(Sel(doc, m)) \/ LocDup(doc, m.path)))
+                     \/ (m.op \in {"Remove", "RemoveOne", "Del", "DelOne"} /\ LocDup(doc, m.path))
 Allowed(doc, m, out) ==
   CASE out.r = "panic" -> FALSE
     [] out.r = "err" -> Blocked(doc, m.op, m.path)
